@@ -35,6 +35,8 @@ structure BState where
   parentType : String
   tokens : List Tok
   listIndent : Int := -1   -- `state.listIndent` (read and written by the list rule only)
+  refs : List (List Char × List Char × List Char) := []   -- `env["references"]` entries this parse added: label ↦ (href, title), in order
+  dups : List (List Char × List Char × List Char) := []   -- `env["duplicate_refs"]` entries this parse added
 deriving Repr
 
 abbrev BRule := BState → Nat → Nat → Bool → Except PyErr (Bool × BState)
